@@ -65,6 +65,14 @@ pub fn nesting(family: usize, d: usize) -> Option<String> {
         15 => format!("let a = num{};", r(" ! ? ", d)),
         16 => format!("let a = f{};", r(" (g", d)),
         17 => r("let a = num;\n", d * 5),
+        // nested contents whose later meta-data contains a repetition item
+        18 => format!("let a = {}<>{};", r("<headers={ 'h ", d), r(" }, media={ 'm str }>", d)),
+        // nested transfers with parameter objects and domains
+        19 => format!("let a = {}<>{};", r("get { 'q num } : <", d), r("> -> <>", d)),
+        // relations nested through response objects, several transfers each
+        20 => format!("let a = {}{{}}{};", r("/x on get -> { 'r ", d), r(" }, put -> <>", d)),
+        // uri templates with nested variables and parameters
+        21 => format!("let a = {}num{};", r("/p/{ 'v ", d), r(" }?{ 'q str }", d)),
         _ => return None,
     })
 }
